@@ -29,7 +29,7 @@ Probe(c) == \/ (c.mode = "both" /\ c.macros = <<Mac("A", 2, 1), Mac("B", 1, 1)>>
             \/ (c.mode = "chain2" /\ c.macros = <<Mac("B", 2, 1), Mac("A", 2, 1)>> /\ c.count = 2)
             \/ (c.mode = "chain2" /\ c.macros = <<Mac("A", 1, 1), Mac("B", 1, 1)>> /\ c.ff \in {FFonlyA, FFnone})
             \/ (c.mode = "chain3" /\ c.macros = <<Mac("A", 2, 2), Mac("B", 1, 1)>> /\ c.count = 1 /\ c.tag = 1)
-            \/ (c.mode = "chain3" /\ c.connects = <<>> /\ Len(c.macros) = 2 /\ c.count = 1 /\ c.tag = 0)
+            \/ (c.mode = "chain3" /\ c.connects = <<>> /\ c.macros = <<Mac("A", 2, 1), Mac("B", 2, 1)>> /\ c.count = 1 /\ c.tag = 0)
 Mk(mode, ms, cn, tag, ff, cnt) == LET c == Mk0(mode, ms, cn, tag, ff, cnt) IN
    [mode |-> mode, macros |-> ms, connects |-> cn, tag |-> tag, ff |-> ff, count |-> cnt, lib |-> LibAB, on |-> {}, probe |-> Probe(c)]
 
@@ -52,6 +52,8 @@ Shapes == { [ms |-> Tree3A, cn |-> <<>>],
             [ms |-> <<Mac("A", 2, 1), Mac("B", 2, 1)>>, cn |-> << <<1, 0, 0, 1>> >>],      \* connect given backwards: 2-3
             [ms |-> <<Mac("A", 3, 1)>>, cn |-> << <<0, 0, 0, 2>> >>],                      \* a ring of three
             [ms |-> <<Mac("A", 2, 1), Mac("B", 2, 1)>>, cn |-> <<>>],                      \* two pieces: disconnected
+            [ms |-> <<Mac("A", 2, 1), Mac("B", 1, 1)>>, cn |-> <<>>],                      \* a piece and a residue without neighbour
+            [ms |-> <<Mac("A", 1, 1), Mac("B", 1, 1)>>, cn |-> <<>>],                      \* two residues without neighbour
             [ms |-> <<Mac("A", 1, 1), Mac("B", 1, 1), Mac("A", 1, 1)>>, cn |-> << <<0, 1, 0, 0>>, <<0, 2, 0, 0>> >>] }
 Chain3 == {Mk("chain3", sh.ms, sh.cn, t, ff, cnt) : sh \in Shapes, t \in {0, 1}, ff \in {FFplus, FFgt}, cnt \in {1, 2}}
 
